@@ -69,7 +69,7 @@ ACTIONS = ["CallStep", "Raise", "Assign", "AugAssign", "TupleAssign", "ExprStmt"
            "ForEnter", "ForNext", "Break", "Continue", "Return", "BlockEnd", "Exhaust"]
 QUICK_PROGRAMS = 70
 QUICK_VECTORS = 7
-THOROUGH_PROGRAMS = 500
+THOROUGH_PROGRAMS = 600
 THOROUGH_VECTORS = 10
 FUEL = 400                       # PySrc transitions per execution
 MAX64 = (1 << 63) - 1
@@ -411,9 +411,10 @@ def cpython_guard(ctx, items, obs):
     """{(item, vector): 'agrees' | 'differs' | 'n/a'}: does CPython side with PySrc.tla on this execution?"""
     payload = []
     for k, it in enumerate(items):
-        # executions PySrc.tla could not finish are not given to CPython (they may run for ever)
+        # executions PySrc.tla could not finish are not given to CPython (they may run for ever), nor are those in
+        # which a value leaves 64 bits (nothing to compare; CPython goes on with ever larger integers)
         payload.append({"src": it["src"], "fn": it["fn"],
-                        "vecs": [v if obs[(k, a)]["status"] in ("ok", "undefined", "outofmodel") else None for a, v in enumerate(it["vecs"])]})
+                        "vecs": [v if obs[(k, a)]["status"] in ("ok", "undefined") else None for a, v in enumerate(it["vecs"])]})
     try:
         p = subprocess.run([sys.executable, "-I", "-c", GUARD], input=json.dumps(payload), capture_output=True, text=True, timeout=600)
         out = json.loads(p.stdout)
@@ -432,9 +433,6 @@ def cpython_guard(ctx, items, obs):
                 verdict[(k, a)] = "agrees" if r[0] == "ok" and r[1] == pygen.unword(o["ret"]) else "differs"
             elif o["status"] == "undefined":
                 verdict[(k, a)] = "agrees" if r[0] in ("exc", "none") else "differs"
-            elif o["status"] == "outofmodel":
-                # nothing to compare: the property is silent; a result inside 64 bits is still possible
-                verdict[(k, a)] = "n/a"
     return verdict, raw
 
 
